@@ -309,6 +309,10 @@ def splitAddr : Tm → Tm × Word
 
 /-- the `sa` bytes at `a` and the `sb` bytes at `b` cannot intersect, whatever the state -/
 def disjoint (a : Tm) (sa : Nat) (b : Tm) (sb : Nat) : Bool :=
+  -- two constant addresses: compared as numbers (memory offsets do not wrap around)
+  (match a, b with
+   | .const ca, .const cb => decide (ca.toNat + sa ≤ cb.toNat ∨ cb.toNat + sb ≤ ca.toNat)
+   | _, _ => false) ||
   let (ba, oa) := splitAddr a
   let (bb, ob) := splitAddr b
   ba == bb &&
